@@ -39,6 +39,10 @@ func (W) Name() string { return "stub" }
 
 var elig []int
 
+// voidTargets: targets without results whose parameters are matchable (C04 "every signature": a
+// conditional stub on them answers with nothing, or panics when nothing matches and there is no default).
+var voidTargets []int
+
 func matchable(t reflect.Type) bool {
 	switch t.Kind() {
 	case reflect.Int, reflect.Int8, reflect.Int16, reflect.Int32, reflect.Int64, reflect.Uint8, reflect.Uint16, reflect.Uint32, reflect.Uint64,
@@ -60,6 +64,17 @@ func Eligible() []int {
 	}
 	for _, t := range hist.Targets {
 		ft := t.Typ
+		if ft.NumOut() == 0 && t.Known == "" && t.Kind == "func" && ft.NumIn() > 0 && !ft.IsVariadic() {
+			okv := true
+			for i := 0; i < ft.NumIn(); i++ {
+				if !matchable(ft.In(i)) {
+					okv = false
+				}
+			}
+			if okv {
+				voidTargets = append(voidTargets, t.Idx)
+			}
+		}
 		if ft.NumOut() == 0 || t.Known != "" || t.Kind == "pkgfunc" || (t.Generic && simenv.RaceBuild) {
 			continue // pkgfunc targets resolve relative to the package that calls goom (world hist only)
 		}
@@ -192,6 +207,9 @@ func genAlt(r *rng.R, t *hist.Target, nested bool) ([]model.ArgMatcher, []interf
 
 func uniqueResults(r *rng.R, t *hist.Target, id int) []interface{} {
 	res := val.GenResults(r, t.Typ)
+	if t.Typ.NumOut() == 0 {
+		return res
+	}
 	if t.Typ.Out(0).Kind() == reflect.Int {
 		res[0] = reflect.ValueOf(id).Convert(t.Typ.Out(0)).Interface()
 	} else {
@@ -219,6 +237,9 @@ func (W) Gen(prop string, seed uint64, tier string) *world.Plan {
 	p := &world.Plan{Prop: prop, World: "stub", Seed: seed, Knobs: map[string]int{}}
 	el := Eligible()
 	t := el[int(seed%uint64(len(el)))]
+	if prop == "C04" && len(voidTargets) > 0 && seed%9 == 4 {
+		t = voidTargets[int(seed/9)%len(voidTargets)]
+	}
 	p.Knobs["target"] = t
 	p.Sched.GCPermille = []int{0, 0, 40}[r.Intn(3)]
 	p.Sched.MaxGC = 3
@@ -321,7 +342,7 @@ func (x *exec) seq(r *rng.R, n, clause int) [][]interface{} {
 // applySeq hands a result sequence to goom in one of the documented forms, starting from w which
 // is positioned on the clause (or on the default).
 func applySeq(w *mocker.When, seq [][]interface{}, returns bool) *mocker.When {
-	if returns {
+	if returns && len(seq[0]) > 0 {
 		vals := make([]interface{}, len(seq))
 		for i, s := range seq {
 			if len(s) == 1 {
@@ -345,7 +366,7 @@ func (x *exec) configure(op world.Op) {
 	switch op.K {
 	case "cfgdef":
 		seq := x.seq(r, op.N, -1)
-		if op.F == 1 {
+		if op.F == 1 && len(seq[0]) > 0 {
 			vals := make([]interface{}, len(seq))
 			for i, s := range seq {
 				if len(s) == 1 {
@@ -483,6 +504,13 @@ func (x *exec) scall(op world.Op) {
 	if pv != nil {
 		x.fail("stub/panic", "%s(%s) panicked: %v (reference selects clause %d position %d)", x.t.Name, val.ShowList(margs), pv, want.Clause, want.Pos)
 	}
+	if len(want.Results) == 0 {
+		// target without results: the call must simply answer (no panic), with nothing
+		if len(got) != 0 {
+			x.fail("stub/result", "%s(%s) has no results but the call produced %s", x.t.Name, val.ShowList(margs), val.ShowList(got))
+		}
+		return
+	}
 	if useEval {
 		// Eval converts zero pointer/interface results to untyped nil: compare ids and the rest loosely
 		if len(got) != len(want.Results) || idOf(got[0]) != idOf(want.Results[0]) {
@@ -524,7 +552,7 @@ func (W) Exec(p *world.Plan, env *world.Env) {
 		return
 	}
 	x := &exec{env: env, p: p, t: hist.Targets[ti], b: mocker.Create(), idPos: map[int][2]int{}, seqLen: map[int]int{}}
-	x.stub = &model.Stub{HasResults: true, Eq: func(a, b interface{}) bool { return val.Same(a, b, false) }}
+	x.stub = &model.Stub{HasResults: x.t.Typ.NumOut() > 0, Eq: func(a, b interface{}) bool { return val.Same(a, b, false) }}
 	// well-formedness: default first, then clauses
 	seenWhen := false
 	for _, op := range p.Tasks[0].Ops {
